@@ -22,6 +22,7 @@ import (
 	"sort"
 	"strconv"
 	"strings"
+	"syscall"
 	"sync"
 	"time"
 
@@ -118,12 +119,40 @@ func runPlan(b *built, p *plan.Plan, tag string, history, trace bool, wallMax ti
 	var errb bytes.Buffer
 	c.Stderr = &errb
 	c.Stdout = &errb
-	runErr := c.Run()
+	// The worker has one P and no preemption, so its own watchdog cannot run while a goroutine
+	// spins: the orchestrator enforces the wall-clock limit from outside (SIGQUIT for a goroutine
+	// dump, then SIGKILL).
+	hung := false
+	runErr := c.Start()
+	if runErr == nil {
+		done := make(chan error, 1)
+		go func() { done <- c.Wait() }()
+		select {
+		case runErr = <-done:
+		case <-time.After(wallMax + 15*time.Second):
+			hung = true
+			c.Process.Signal(syscall.SIGQUIT)
+			select {
+			case runErr = <-done:
+			case <-time.After(5 * time.Second):
+				c.Process.Kill()
+				runErr = <-done
+			}
+		}
+	}
 	o := &outcome{seed: p.Seed, plan: p}
+	if hung {
+		dump := errb.String()
+		o.res = &plan.Result{Prop: p.Prop, Seed: p.Seed, Status: "hung", Reason: spinningFrame(dump) + "\n" + head(dump, 6000)}
+		if !strings.HasPrefix(o.res.Reason, "spinning in ") {
+			o.err = "worker hung: " + head(o.res.Reason, 3000)
+		}
+		return o
+	}
 	rb, rerr := os.ReadFile(rf)
 	if rerr != nil {
 		// the worker died without a verdict: a panic inside olric code kills the process
-		o.res = &plan.Result{Prop: p.Prop, Seed: p.Seed, Status: "crashed", Reason: tail(errb.String(), 4000)}
+		o.res = &plan.Result{Prop: p.Prop, Seed: p.Seed, Status: "crashed", Reason: crashText(errb.String())}
 		if runErr == nil {
 			o.err = "worker exited 0 without a result"
 		}
@@ -139,6 +168,16 @@ func runPlan(b *built, p *plan.Plan, tag string, history, trace bool, wallMax ti
 		o.err = res.Reason + "\n" + tail(errb.String(), 3000)
 	}
 	return o
+}
+
+// crashText keeps the part of a dying worker's stderr that names the panic or fatal error.
+func crashText(s string) string {
+	for _, marker := range []string{"panic: ", "fatal error: ", "runtime: out of memory"} {
+		if i := strings.Index(s, marker); i >= 0 {
+			return head(s[i:], 4000)
+		}
+	}
+	return tail(s, 4000)
 }
 
 func tail(s string, n int) string {
@@ -236,6 +275,19 @@ func unknownViolations(fs []finding, prop string, res *plan.Result, seen map[str
 		}
 		out = append(out, v)
 	}
+	if res.Status == "hung" {
+		// the worker had to be killed: a goroutine was spinning (a blocked bubble panics instead)
+		first := res.Reason
+		if i := strings.IndexByte(first, '\n'); i >= 0 {
+			first = first[:i]
+		}
+		v := plan.Violation{Class: "member-wedged", Subject: first, Detail: res.Reason}
+		if f := matchFinding(fs, prop, v); f != nil {
+			seen[f.class+" "+f.text] = f
+		} else {
+			out = append(out, v)
+		}
+	}
 	if res.Status == "crashed" {
 		v := plan.Violation{Class: "member-crash", Subject: crashSubject(res.Reason), Detail: res.Reason}
 		if f := matchFinding(fs, prop, v); f != nil {
@@ -247,7 +299,20 @@ func unknownViolations(fs []finding, prop string, res *plan.Result, seen map[str
 	return out
 }
 
-var panicRe = regexp.MustCompile(`(?m)^panic: (.*)$`)
+var runningRe = regexp.MustCompile(`(?s)goroutine \d+ \[(?:running|runnable)[^\]]*\]:\n(.*?)\n\n`)
+
+// spinningFrame names the innermost olric frame of the goroutine that was running when the
+// worker was killed.
+func spinningFrame(dump string) string {
+	for _, m := range runningRe.FindAllStringSubmatch(dump, -1) {
+		if f := frameRe.FindStringSubmatch(m[1]); f != nil {
+			return "spinning in " + f[1]
+		}
+	}
+	return "no runnable olric frame (harness hang?)"
+}
+
+var panicRe = regexp.MustCompile(`(?m)^(?:panic|fatal error): (.*)$`)
 var frameRe = regexp.MustCompile(`(?m)^(github\.com/olric-data/olric[^\s(]*)\(`)
 
 func crashSubject(stderr string) string {
